@@ -799,12 +799,54 @@ func ruleC08Siblings(c *Ctx) {
 func ruleC07Subgroups(c *Ctx) {
 	var collector *ssa.Function
 	for _, f := range c.ModFns {
-		if pkgOf(f) != modPath+"/internal/refopts" || f.Signature.Results().Len() != 2 || !isBoolType(f.Signature.Results().At(0).Type()) {
+		if pkgOf(f) != modPath+"/internal/refopts" {
 			continue
 		}
-		if len(callsTo(f, f)) > 0 {
+		res := f.Signature.Results()
+		shape := res.Len() == 2 && isBoolType(res.At(0).Type())
+		if res.Len() == 1 {
+			// (walk, symbols) packed into one result struct
+			if st, ok := res.At(0).Type().Underlying().(*types.Struct); ok && st.NumFields() == 2 {
+				nb, ns := 0, 0
+				for i := 0; i < 2; i++ {
+					if isBoolType(st.Field(i).Type()) {
+						nb++
+					}
+					if isSliceType(st.Field(i).Type()) {
+						ns++
+					}
+				}
+				shape = nb == 1 && ns == 1
+			}
+		}
+		if shape && len(callsTo(f, f)) > 0 {
 			collector = f
 		}
+	}
+	// recResult: v is the symbol list returned by a recursive call
+	recResult := func(v ssa.Value) (ssa.Value, bool) {
+		switch x := v.(type) {
+		case *ssa.Extract:
+			if rc, ok := x.Tuple.(*ssa.Call); ok && rc.Call.StaticCallee() == collector && x.Index == 1 {
+				return x, true
+			}
+		case *ssa.Field:
+			if rc, ok := x.X.(*ssa.Call); ok && rc.Call.StaticCallee() == collector && isSliceType(x.Type()) {
+				return x, true
+			}
+		case *ssa.UnOp:
+			// the result struct spilled into a local: a load of its slice field
+			if fa, ok := x.X.(*ssa.FieldAddr); ok && isSliceType(x.Type()) {
+				if al, ok := fa.X.(*ssa.Alloc); ok {
+					for _, st := range storesTo(al) {
+						if rc, ok := st.Val.(*ssa.Call); ok && rc.Call.StaticCallee() == collector {
+							return x, true
+						}
+					}
+				}
+			}
+		}
+		return nil, false
 	}
 	if collector == nil {
 		c.violate("C07.subgroups", "collector", token.NoPos, "", "no recursive symbol collector found in refopts: subgroup tallies are not computed")
@@ -849,10 +891,8 @@ func ruleC07Subgroups(c *Ctx) {
 				return 0
 			}
 			// append(symbols, ss...) where ss is the recursive result
-			if ex, ok := call.Call.Args[1].(*ssa.Extract); ok {
-				if rc, ok := ex.Tuple.(*ssa.Call); ok && rc.Call.StaticCallee() == collector && ex.Index == 1 {
-					return 1
-				}
+			if _, ok := recResult(call.Call.Args[1]); ok {
+				return 1
 			}
 			return 0
 		}, false)
@@ -868,11 +908,8 @@ func ruleC07Subgroups(c *Ctx) {
 					if !ok || !isBuiltin(&call.Call, "append") {
 						continue
 					}
-					ex, ok := call.Call.Args[1].(*ssa.Extract)
+					ex, ok := recResult(call.Call.Args[1])
 					if !ok {
-						continue
-					}
-					if rcall, ok := ex.Tuple.(*ssa.Call); !ok || rcall.Call.StaticCallee() != collector {
 						continue
 					}
 					found = true
@@ -884,12 +921,12 @@ func ruleC07Subgroups(c *Ctx) {
 						cmp, isCmp2 := cond.(*ssa.BinOp)
 						okGuard := false
 						if isCmp2 {
-							if lc, isLen := cmp.X.(*ssa.Call); isLen && isBuiltin(&lc.Call, "len") && lc.Call.Args[0] == ssa.Value(ex) {
+							if lc, isLen := cmp.X.(*ssa.Call); isLen && isBuiltin(&lc.Call, "len") && lc.Call.Args[0] == ex {
 								if k, isK := constInt(cmp.Y); isK && k == 0 {
 									okGuard = (cmp.Op == token.GTR && truth) || (cmp.Op == token.NEQ && truth) || (cmp.Op == token.EQL && !truth) || (cmp.Op == token.LEQ && !truth)
 								}
 							}
-							if cmp.X == ssa.Value(ex) && isNilConst(cmp.Y) {
+							if cmp.X == ex && isNilConst(cmp.Y) {
 								okGuard = (cmp.Op == token.NEQ && truth) || (cmp.Op == token.EQL && !truth)
 							}
 						}
